@@ -50,3 +50,6 @@ func VNewMulti(calls []hrpc.Call) hrpc.Call {
 func VMultiToProto(m hrpc.Call) (proto.Message, [][]byte, uint32) {
 	return m.(*multi).SerializeCellBlocks(nil)
 }
+
+// VExceptionToError exposes the classification of a Java exception.
+func VExceptionToError(class, stack string) error { return exceptionToError(class, stack) }
